@@ -47,12 +47,13 @@ func (authenticator *CertificateAuthenticator) Authenticate(conn Conn) (bool, er
 	if !ok {
 		return false, nil
 	}
-	for _, cert := range conState.PeerCertificates {
-		if 0 < len(authenticator.commonName) {
-			if cert.Subject.CommonName == authenticator.commonName {
-				return true, nil
-			}
-		}
+	// Only the client's own certificate identifies it: the first one is the leaf,
+	// the others are the intermediates it was issued by.
+	if len(conState.PeerCertificates) == 0 || len(authenticator.commonName) == 0 {
+		return false, nil
+	}
+	if conState.PeerCertificates[0].Subject.CommonName == authenticator.commonName {
+		return true, nil
 	}
 	return false, nil
 }
